@@ -98,6 +98,96 @@ theorem findPrevious_spec (vs : List Nat) (hs : vs.Pairwise (· < ·)) (version 
       · have := hall v0 (by simp); omega
       · rw [hc] at hc'; cases hc'; exact ⟨hm, hle, hmax⟩
 
+theorem findLoop_spec (vs : List Nat) (hs : vs.Pairwise (· < ·)) (version : Nat) :
+    ∀ (fuel low hi : Nat), hi - low ≤ fuel → low ≤ hi → hi ≤ vs.length →
+      (∀ i x, i < low → vs[i]? = some x → x < version) →
+      (∀ i x, hi ≤ i → vs[i]? = some x → version < x) →
+      (∃ x, vs.getLast? = some x ∧ version ≤ x) →
+      ∃ c, findLoop vs version fuel low hi = some c ∧ c ∈ vs ∧ version ≤ c ∧ ∀ d ∈ vs, version ≤ d → c ≤ d := by
+  have hexit : ∀ (low hi : Nat), low = hi → hi ≤ vs.length →
+      (∀ i x, i < low → vs[i]? = some x → x < version) →
+      (∀ i x, hi ≤ i → vs[i]? = some x → version < x) →
+      (∃ x, vs.getLast? = some x ∧ version ≤ x) →
+      ∃ c, vs[low]? = some c ∧ c ∈ vs ∧ version ≤ c ∧ ∀ d ∈ vs, version ≤ d → c ≤ d := by
+    intro low hi hl hhi Ilow Ihi ⟨xl, hxl, hlel⟩
+    have hne : vs ≠ [] := by intro e; subst e; simp at hxl
+    have hlen : 0 < vs.length := List.length_pos_iff.mpr hne
+    have hlast : vs[vs.length - 1]? = some xl := by
+      rw [List.getLast?_eq_getElem?] at hxl; exact hxl
+    have hlow : low < vs.length := by
+      rcases Nat.lt_or_ge low vs.length with h | h
+      · exact h
+      · have := Ilow (vs.length - 1) xl (by omega) hlast; omega
+    refine ⟨vs[low], List.getElem?_eq_getElem hlow, List.getElem_mem hlow, ?_, ?_⟩
+    · exact Nat.le_of_lt (Ihi low _ (by omega) (List.getElem?_eq_getElem hlow))
+    · intro d hd hdv
+      obtain ⟨j, hj, rfl⟩ := List.mem_iff_getElem.mp hd
+      by_cases hji : j < low
+      · have := Ilow j _ hji (List.getElem?_eq_getElem hj); omega
+      · exact sorted_get_le vs hs low j _ _ (by omega) (List.getElem?_eq_getElem hlow) (List.getElem?_eq_getElem hj)
+  intro fuel
+  induction fuel with
+  | zero =>
+    intro low hi hf hlh hhi Ilow Ihi h0
+    simp only [findLoop]
+    exact hexit low hi (by omega) hhi Ilow Ihi h0
+  | succ fuel ih =>
+    intro low hi hf hlh hhi Ilow Ihi h0
+    simp only [findLoop]
+    by_cases hlt : low < hi
+    · simp only [hlt, if_true]
+      have hml : (low + (hi - 1)) / 2 < vs.length := by omega
+      rw [List.getElem?_eq_getElem hml]
+      simp only
+      by_cases heq : vs[(low + (hi - 1)) / 2] = version
+      · simp only [heq, if_true]
+        refine ⟨version, rfl, ?_, Nat.le_refl _, fun d _ hd => hd⟩
+        rw [← heq]; exact List.getElem_mem hml
+      · simp only [heq, if_false]
+        by_cases hx : vs[(low + (hi - 1)) / 2] < version
+        · simp only [hx, if_true]
+          apply ih _ _ (by omega) (by omega) hhi _ Ihi h0
+          intro i x hi' hxi
+          have := sorted_get_le vs hs i _ x _ (by omega) hxi (List.getElem?_eq_getElem hml)
+          omega
+        · simp only [hx, if_false]
+          apply ih _ _ (by omega) (by omega) (by omega) Ilow _ h0
+          intro i x hi' hxi
+          have := sorted_get_le vs hs _ i _ x hi' (List.getElem?_eq_getElem hml) hxi
+          omega
+    · simp only [hlt, if_false]
+      exact hexit low hi (by omega) hhi Ilow Ihi h0
+
+/-- **`Find` is the least element not below the version** (the shard that holds it) -/
+theorem find_spec (vs : List Nat) (hs : vs.Pairwise (· < ·)) (version : Nat) :
+    (find vs version = none ↔ ∀ d ∈ vs, d < version) ∧
+    (∀ c, find vs version = some c → c ∈ vs ∧ version ≤ c ∧ ∀ d ∈ vs, version ≤ d → c ≤ d) := by
+  unfold find
+  cases hl : vs.getLast? with
+  | none =>
+    have : vs = [] := List.getLast?_eq_none_iff.mp hl
+    subst this; simp
+  | some last =>
+    simp only
+    have hlm : last ∈ vs := List.mem_of_getLast? hl
+    have hmax : ∀ d ∈ vs, d ≤ last := by
+      intro d hd
+      obtain ⟨j, hj, rfl⟩ := List.mem_iff_getElem.mp hd
+      rw [List.getLast?_eq_getElem?] at hl
+      exact sorted_get_le vs hs j (vs.length - 1) _ _ (by omega) (List.getElem?_eq_getElem hj) hl
+    by_cases hlt : last < version
+    · simp only [hlt, if_true]
+      exact ⟨⟨fun _ d hd => by have := hmax d hd; omega, fun _ => trivial⟩, fun c hc => by cases hc⟩
+    · simp only [hlt, if_false]
+      obtain ⟨c, hc, hm, hle, hmin⟩ := findLoop_spec vs hs version vs.length 0 vs.length
+        (by omega) (by omega) (Nat.le_refl _) (by intro i x hi; omega)
+        (by intro i x hi hx; have := List.getElem?_eq_some_iff.mp hx; obtain ⟨h, _⟩ := this; omega)
+        ⟨last, hl, by omega⟩
+      refine ⟨⟨fun hn => ?_, fun hall => ?_⟩, fun c' hc' => ?_⟩
+      · rw [hc] at hn; cases hn
+      · have := hall last hlm; omega
+      · rw [hc] at hc'; cases hc'; exact ⟨hm, hle, hmin⟩
+
 theorem findPrevious_eq_some_iff (vs : List Nat) (hs : vs.Pairwise (· < ·)) (version c : Nat) :
     findPrevious vs version = some c ↔ c ∈ vs ∧ c ≤ version ∧ ∀ d ∈ vs, d ≤ version → d ≤ c := by
   have hsp := findPrevious_spec vs hs version
